@@ -48,9 +48,7 @@ func checkC20() fw.Check {
 				for _, cp := range caps {
 					for _, e2e := range []int{0, 2} {
 						for _, q := range []int{1, 2} {
-							if tier != "thorough" && q == 2 && e2e == 2 {
-								continue
-							}
+							_ = tier
 							reqs = append(reqs, c20Req{method: m, cap: cp, fault: "none", e2e: e2e, queries: q})
 						}
 					}
@@ -58,8 +56,9 @@ func checkC20() fw.Check {
 				for _, f := range faults {
 					for _, cp := range []string{"sack-ok", "sack-ok-ts"} {
 						reqs = append(reqs, c20Req{method: m, cap: cp, fault: f, e2e: 0, queries: 1})
+						reqs = append(reqs, c20Req{method: m, cap: cp, fault: f, e2e: 1, queries: 1})
 						if tier == "thorough" {
-							reqs = append(reqs, c20Req{method: m, cap: cp, fault: f, e2e: 1, queries: 1})
+							reqs = append(reqs, c20Req{method: m, cap: cp, fault: f, e2e: 2, queries: 1})
 						}
 					}
 				}
